@@ -11,6 +11,8 @@ import XzVerif.Lemmas.Delta
 import XzVerif.Lemmas.BcjBlocks
 import XzVerif.Lemmas.BitWordsBcj
 import XzVerif.Lemmas.BcjThumb
+import XzVerif.Lemmas.BcjX86
+import XzVerif.Lemmas.BcjRiscv
 
 namespace XzVerif.C15
 open XzVerif.Bcj XzVerif.BitWords
@@ -189,5 +191,160 @@ theorem bcj_chunk_stable (e : Bool) :
    fun off a b => blockCode_chunk (w := 4) (by omega) (powerpcWord e) off a b,
    fun off a b => blockCode_chunk (w := 4) (by omega) (sparcWord e) off a b,
    fun off a b => blockCode_chunk (w := 16) (by omega) (ia64Bundle e) off a b⟩
+
+/-! ## x86 -/
+
+/-- **Mask invariant.** `MaskOK μ l` (Lemmas/BcjX86.lean): `μ` is the value `prev_mask` has after the shift at a candidate at the head
+    of `l`; bit `k ∈ {1,2,3}` stands for a rejected candidate `k` bytes back, bit `4+k` for "its byte 4 (= `l[4-k]`) was 00/FF".
+    It holds for `prev_mask = 0`, is kept by every step of the main loop, and at a convertible candidate it gives
+    `prev_mask ∈ {0,2,4,8}` with the byte the inner loop inspects being non-00/FF. -/
+theorem x86_mask_inv :
+    (∀ l, MaskOK 0#32 l)
+    ∧ (∀ μ b0 tail, MaskOK μ (b0 :: tail) → MaskOK (shift1 μ) tail)
+    ∧ (∀ μ b0 b1 b2 b3 b4 rest, MaskOK μ (b0 :: b1 :: b2 :: b3 :: b4 :: rest) →
+        MaskOK (shift1 (noconvMask μ b4)) (b1 :: b2 :: b3 :: b4 :: rest))
+    ∧ (∀ μ b0 b1 b2 b3 b4 rest, MaskOK μ (b0 :: b1 :: b2 :: b3 :: b4 :: rest) → x86Convertible b4 μ = true →
+        (μ = 0#32 ∨ μ = 2#32 ∨ μ = 4#32 ∨ μ = 8#32)
+        ∧ (μ = 2#32 → test86 b3 = false) ∧ (μ = 4#32 → test86 b2 = false) ∧ (μ = 8#32 → test86 b1 = false)) := by
+  refine ⟨maskOK_zero, fun _ _ _ h => maskOK_skip h, fun _ _ _ _ _ _ _ h => maskOK_noconv h, ?_⟩
+  intro μ b0 b1 b2 b3 b4 rest hm hc
+  obtain ⟨_, hrange⟩ := (convertible_iff b4 μ).1 hc
+  refine ⟨convertible_mask μ (bit0_and μ hm.b0) hrange, ?_, ?_, ?_⟩
+  · intro h; subst h; rw [hm.k1 bits_of_2.1 b3 rfl]; exact bits_of_2.2.2.2
+  · intro h; subst h; rw [hm.k2 bits_of_4.2.1 b2 rfl]; exact bits_of_4.2.2.2
+  · intro h; subst h; rw [hm.k3 bits_of_8.2.2.1 b1 rfl]; exact bits_of_8.2.2.2
+
+/-- The virtual mask really is what the code computes: moving one byte forward shifts it once (no candidate), a rejected candidate
+    ors in its flags, a conversion clears it. (`NoWrap`: fewer than 2^32 bytes since the last candidate.) -/
+theorem x86_mask_tracks (st : X86State) (pc m : BitVec 32) (h : (pc - st.prevPos).toNat + 1 < 2 ^ 32) :
+    x86NewMask st (pc + 1#32) = shift1 (x86NewMask st pc)
+    ∧ x86NewMask ⟨m, pc⟩ (pc + 1#32) = shift1 m
+    ∧ x86NewMask ⟨0#32, pc⟩ (pc + 5#32) = 0#32 :=
+  ⟨newMask_skip st pc h, newMask_after_noconv m pc, newMask_after_conv pc⟩
+
+/-- **Inner loop.** Under the mask invariant the C `while (true)` exits within two iterations: any fuel ≥ 2 gives the same value
+    (so the model's fuel of 4 is the C result), for encoder and decoder. -/
+theorem x86_inner_loop_2 (e : Bool) (pc5 mask src : BitVec 32) (fuel : Nat)
+    (hm : mask = 0#32 ∨ mask = 2#32 ∨ mask = 4#32 ∨ mask = 8#32)
+    (h3 : mask = 2#32 → test86 (u8 (src >>> 16)) = false) (h2 : mask = 4#32 → test86 (u8 (src >>> 8)) = false)
+    (h1 : mask = 8#32 → test86 (u8 src) = false) :
+    x86Loop e pc5 mask (fuel + 2) src = x86Loop e pc5 mask 2 src :=
+  x86_loop_two e pc5 mask src fuel hm h3 h2 h1
+
+/-- Without the invariant the loop need not terminate: for this operand the inspected byte is 00/FF in `src` and the iterates cycle
+    (the value keeps changing with the fuel). -/
+example : x86Loop true 0xCB00E324#32 2#32 4 0x00FFDD21#32 ≠ x86Loop true 0xCB00E324#32 2#32 5 0x00FFDD21#32 := by decide
+example : test86 (u8 (0x00FFDD21#32 >>> 16)) = true := by decide
+
+/-- One converted operand: the decoder restores the four bytes; byte 4 stays 00/FF; the byte a rejected earlier candidate has
+    looked at stays non-00/FF, so the decoder takes the same decisions. -/
+theorem x86_operand_roundtrip (pc5 mask : BitVec 32) (b1 b2 b3 b4 : UInt8)
+    (hm : mask = 0#32 ∨ mask = 2#32 ∨ mask = 4#32 ∨ mask = 8#32) (h4 : test86 b4 = true)
+    (h3 : mask = 2#32 → test86 b3 = false) (h2 : mask = 4#32 → test86 b2 = false) (h1 : mask = 8#32 → test86 b1 = false) :
+    x86Conv false pc5 mask (x86Conv true pc5 mask b1 b2 b3 b4).1 (x86Conv true pc5 mask b1 b2 b3 b4).2.1
+        (x86Conv true pc5 mask b1 b2 b3 b4).2.2.1 (x86Conv true pc5 mask b1 b2 b3 b4).2.2.2 = (b1, b2, b3, b4)
+    ∧ test86 (x86Conv true pc5 mask b1 b2 b3 b4).2.2.2 = true
+    ∧ (mask = 2#32 → test86 (x86Conv true pc5 mask b1 b2 b3 b4).2.2.1 = false)
+    ∧ (mask = 4#32 → test86 (x86Conv true pc5 mask b1 b2 b3 b4).2.1 = false)
+    ∧ (mask = 8#32 → test86 (x86Conv true pc5 mask b1 b2 b3 b4).1 = false) :=
+  x86_conv_dec_enc pc5 mask b1 b2 b3 b4 hm h4 h3 h2 h1
+
+/-- **Round trip of `x86_code`** from any state whose mask is consistent with the buffer (in particular `prev_mask = 0`, the state
+    after init and after every conversion), for every start offset and every buffer shorter than 2^32 - 5 bytes: the decoder
+    returns the original bytes, the same processed count and the same `prev_mask` / `prev_pos`. -/
+theorem x86_roundtrip_state (st : X86State) (off : BitVec 32) (x : List UInt8) (hlen : x.length + 5 < 2 ^ 32)
+    (hm : MaskOK (x86NewMask ⟨st.prevMask, if off - st.prevPos > 5#32 then off - 5#32 else st.prevPos⟩ off) x) :
+    x86Code false st off (x86Code true st off x).1 = (x, (x86Code true st off x).2.1, (x86Code true st off x).2.2) := by
+  unfold x86Code
+  by_cases h5 : x.length < 5
+  · simp [h5]
+  · simp only [h5, if_false]
+    have hw := noWrap_clamp st.prevMask st.prevPos off x hlen
+    have hp := x86Go_enc_pres _ x off _ (Nat.le_refl _) hw hm
+    rw [hp.len, if_neg h5]
+    exact x86Go_roundtrip _ x off _ (Nat.le_refl _) hw hm
+
+theorem x86_roundtrip (off : BitVec 32) (x : List UInt8) (hlen : x.length + 5 < 2 ^ 32) :
+    x86Code false X86State.init off (x86Code true X86State.init off x).1
+      = (x, (x86Code true X86State.init off x).2.1, (x86Code true X86State.init off x).2.2)
+    ∧ (x86Code true X86State.init off x).1.length = x.length := by
+  have hm : ∀ pp, MaskOK (x86NewMask ⟨0#32, pp⟩ off) x := fun pp => by rw [newMask_zero]; exact maskOK_zero _
+  refine ⟨x86_roundtrip_state X86State.init off x hlen (hm _), ?_⟩
+  unfold x86Code
+  by_cases h5 : x.length < 5
+  · simp [h5]
+  · simp only [h5, if_false]
+    exact (x86Go_enc_pres _ x off _ (Nat.le_refl _) (noWrap_clamp _ _ off x hlen) (hm _)).len
+
+/-- non-vacuity: the candidate at 0 is rejected (its byte 4 is FE), the candidate at 1 sees `prev_mask = 2`; plain addition would
+    put FF where the rejected candidate looked, so the inner loop runs a second iteration and stores 01 there; the decoder undoes it -/
+example : x86Code true X86State.init 0#32 [0xE8, 0xE8, 0xFA, 0xFF, 0xFE, 0x00, 9, 9, 9, 9]
+    = ([0xE8, 0xE8, 0x05, 0x00, 0x01, 0x00, 9, 9, 9, 9], 6, ⟨0#32, 1#32⟩) := by decide +kernel
+example : x86Code false X86State.init 0#32 [0xE8, 0xE8, 0x05, 0x00, 0x01, 0x00, 9, 9, 9, 9]
+    = ([0xE8, 0xE8, 0xFA, 0xFF, 0xFE, 0x00, 9, 9, 9, 9], 6, ⟨0#32, 1#32⟩) := by decide +kernel
+
+/-- **Chunk stability of the main loop**: one pass over `a ++ b` = a pass over `a`, then a pass at the position and with the
+    `prev_mask`/`prev_pos` state where the first one stopped, over (its unprocessed tail) ++ `b`. -/
+theorem x86_chunk_stable_partial (e : Bool) (pc : BitVec 32) (st : X86State) (a b : List UInt8) :
+    x86Go e pc st (a ++ b) =
+      ((x86Go e pc st a).1.take (x86Go e pc st a).2.1
+          ++ (x86Go e (pc + BitVec.ofNat 32 (x86Go e pc st a).2.1) (x86Go e pc st a).2.2 ((x86Go e pc st a).1.drop (x86Go e pc st a).2.1 ++ b)).1,
+       (x86Go e pc st a).2.1
+          + (x86Go e (pc + BitVec.ofNat 32 (x86Go e pc st a).2.1) (x86Go e pc st a).2.2 ((x86Go e pc st a).1.drop (x86Go e pc st a).2.1 ++ b)).2.1,
+       (x86Go e (pc + BitVec.ofNat 32 (x86Go e pc st a).2.1) (x86Go e pc st a).2.2 ((x86Go e pc st a).1.drop (x86Go e pc st a).2.1 ++ b)).2.2) :=
+  x86Go_chunk e a.length a b pc st (Nat.le_refl _)
+
+/-- Full statement for `x86_code` itself (not proved): a second *call* re-clamps `prev_pos` to `now_pos - 5` and skips buffers shorter
+    than 5 bytes, so bytes and counts agree with the single call while the final `prev_pos` may differ by an equivalent value
+    (> 5 bytes back either way). What is missing is the lemma that two states with equal virtual masks at all later positions
+    yield equal bytes; the byte-exact correspondence under arbitrary slicing (stage K, `codeseq`/`stream` ops) covers it. -/
+def x86_chunk_stable_statement : Prop :=
+  ∀ (e : Bool) (st : X86State) (off : BitVec 32) (a b : List UInt8), (a ++ b).length + 5 < 2 ^ 32 →
+    let r1 := x86Code e st off a
+    let r2 := x86Code e r1.2.2 (off + BitVec.ofNat 32 r1.2.1) (r1.1.drop r1.2.1 ++ b)
+    (x86Code e st off (a ++ b)).1 = r1.1.take r1.2.1 ++ r2.1 ∧ (x86Code e st off (a ++ b)).2.1 = r1.2.1 + r2.2.1
+
+/-! ## RISC-V -/
+
+/-- JAL (rd ∈ {x1, x5}): per-instruction inverse at every even pc; the rd test is preserved. -/
+theorem riscv_jal_inverse (pc : BitVec 32) (b1 b2 b3 : UInt8) (hpc : pc &&& 1#32 = 0#32) (h : (u32 b1 &&& 0x0D#32 != 0#32) = false) :
+    (u32 (rvJalEnc pc b1 b2 b3).1 &&& 0x0D#32 != 0#32) = false
+    ∧ rvJalDec pc (rvJalEnc pc b1 b2 b3).1 (rvJalEnc pc b1 b2 b3).2.1 (rvJalEnc pc b1 b2 b3).2.2 = (b1, b2, b3) :=
+  jal_dec_enc pc b1 b2 b3 hpc h
+
+/-- AUIPC + inst2 pair (rd ∉ {x0,x2}, rd = rs1 of inst2, inst2 a 32-bit instruction): the encoder's output is a special-form AUIPC
+    (rd = x2, opcode bits of the packed inst2 = 11, packed rs1 ∉ {x0,x2}) that the decoder recognises, and decoding it restores both
+    instructions for every pc — including the sign-extension compensation `(addr + 0x800) & 0xFFFFF000`. -/
+theorem riscv_pair_inverse (pc inst inst2 : BitVec 32) (hA : (inst &&& 0x7F#32 == 0x17#32) = true)
+    (hE : (inst &&& 0xE80#32 != 0#32) = true) (hP : notAuipcPair inst inst2 = false) :
+    (pairEncX inst2 &&& 0xE80#32 != 0#32) = false ∧ notSpecialAuipc (pairEncX inst2) (pairEncX inst2 >>> 27) = false
+    ∧ rvSpecialDec pc (pairEncX inst2) (pairEncY pc inst inst2) = le32x2 inst inst2 := by
+  obtain ⟨_, _, w3, w4, w5, w6, _⟩ := pair_words pc inst inst2 hA hE hP
+  exact ⟨w3, w4, by rw [rvSpecialDec_eq, w5, w6]⟩
+
+/-- A special-form AUIPC that occurs in the *input* is "fake-decoded" by the encoder into something the decoder sees as a pair and
+    re-encodes to the original bytes: this is what makes the filter a bijection on arbitrary data. -/
+theorem riscv_special_inverse (inst fa : BitVec 32) (hA : (inst &&& 0x7F#32 == 0x17#32) = true)
+    (hE : (inst &&& 0xE80#32 != 0#32) = false) (hS : notSpecialAuipc inst (inst >>> 27) = false) :
+    (specEncX inst fa &&& 0xE80#32 != 0#32) = true ∧ notAuipcPair (specEncX inst fa) (specEncY inst fa) = false
+    ∧ rvPairDec (specEncX inst fa) (specEncY inst fa) = le32x2 inst fa := by
+  obtain ⟨_, _, w3, w4, w5, w6, _⟩ := special_words inst fa hA hE hS
+  exact ⟨w3, w4, by rw [rvPairDec_eq, w5, w6]⟩
+
+/-- **Round trip of the RISC-V filter** on every buffer at every even start offset (all cases: JAL, skipped JAL, real pair,
+    non-pair with the 6-byte skip, special form, non-special AUIPC, everything else; candidates in the last 8 bytes untouched). -/
+theorem riscv_roundtrip : RoundTrip riscvCode 2 := by
+  intro off x h
+  have h2 : off &&& 1#32 = 0#32 := and_of_mod (k := 1) off (by omega) h
+  have := rv_roundtrip x.length x off (Nat.le_refl _) h2
+  simp only [riscvCode, if_true, Bool.false_eq_true, if_false]
+  rw [this]
+  exact ⟨rfl, rvEncGo_length _ x off (Nat.le_refl _), rfl⟩
+
+/-- non-vacuity: `auipc ra,0x12345; jalr ra,-42(ra)` at pc 0x1000 becomes special form + big-endian absolute address 0x12345FD6 -/
+example : riscvCode true 0x1000#32 [0x97, 0x50, 0x34, 0x12, 0xE7, 0x80, 0x60, 0xFD] = ([0x17, 0x71, 0x0E, 0x08, 0x12, 0x34, 0x5F, 0xD6], 8) := by
+  decide +kernel
+example : riscvCode false 0x1000#32 [0x17, 0x71, 0x0E, 0x08, 0x12, 0x34, 0x5F, 0xD6] = ([0x97, 0x50, 0x34, 0x12, 0xE7, 0x80, 0x60, 0xFD], 8) := by
+  decide +kernel
 
 end XzVerif.C15
